@@ -130,6 +130,30 @@ void add_polygon(const Polygon& p, MCell& c, Ctx& ctx, GridFn grid, bool source)
         c.polys.push_back(m);
     }
 }
+// Corners of the polyline that runs parallel to `pts` at signed distance `o` to the left of the direction
+// of travel (own long-double arithmetic): end points are shifted along the normal of their segment, interior
+// corners are the intersections of consecutive shifted lines.  This is the centre line of a path element
+// with a constant offset from the spine.
+typedef std::pair<long double, long double> LP;
+inline std::vector<LP> offset_polyline(const std::vector<LP>& pts, long double o) {
+    size_t m = pts.size();
+    if (o == 0 || m < 2) return pts;
+    std::vector<LP> a(m - 1), d(m - 1), out;
+    for (size_t k = 0; k + 1 < m; k++) {
+        long double dx = pts[k + 1].first - pts[k].first, dy = pts[k + 1].second - pts[k].second, len = hypotl(dx, dy);
+        d[k] = {dx, dy};
+        a[k] = {pts[k].first - o * dy / len, pts[k].second + o * dx / len};
+    }
+    out.push_back(a[0]);
+    for (size_t k = 1; k + 1 < m; k++) {
+        long double cr = d[k - 1].first * d[k].second - d[k - 1].second * d[k].first;
+        if (fabsl(cr) < 1e-18L) { out.push_back({a[k].first, a[k].second}); continue; }
+        long double t = ((a[k].first - a[k - 1].first) * d[k].second - (a[k].second - a[k - 1].second) * d[k].first) / cr;
+        out.push_back({a[k - 1].first + t * d[k - 1].first, a[k - 1].second + t * d[k - 1].second});
+    }
+    out.push_back({a[m - 2].first + d[m - 2].first, a[m - 2].second + d[m - 2].second});
+    return out;
+}
 inline int end_code(EndType e) { return e == EndType::Flush ? 0 : e == EndType::Round ? 1 : e == EndType::HalfWidth ? 2 : e == EndType::Extended ? 4 : 99; }
 
 template <class GridFn>
@@ -151,14 +175,18 @@ void add_cell(const Cell& cell, MLib& lib, Ctx& ctx, GridFn grid, bool source) {
         }
         for (uint64_t ne = 0; ne < fp.num_elements; ne++) {
             const FlexPathElement& el = fp.elements[ne];
+            double eo = el.half_width_and_offset.count ? el.half_width_and_offset[0].y : 0;
             for (uint64_t k = 0; k < el.half_width_and_offset.count; k++)
-                if (el.half_width_and_offset[k].y != 0) { ctx.problems.push_back("simple flexpath with element offsets is outside the model"); break; }
+                if (el.half_width_and_offset[k].y != eo) { ctx.problems.push_back("simple flexpath with a varying element offset is outside the model"); break; }
+            std::vector<LP> centre;
+            for (uint64_t k = 0; k < fp.spine.point_array.count; k++) centre.push_back({fp.spine.point_array[k].x, fp.spine.point_array[k].y});
+            centre = offset_polyline(centre, eo);
             for (auto& o : dump::own_offsets(fp.repetition)) {
                 MPath m;
                 m.layer = (int)get_layer(el.tag);
                 m.type = (int)get_type(el.tag);
                 m.props = props_of(fp.properties);
-                for (uint64_t k = 0; k < fp.spine.point_array.count; k++) m.pts.push_back(P{grid(fp.spine.point_array[k].x + o.x, ctx), grid(fp.spine.point_array[k].y + o.y, ctx)});
+                for (auto& c : centre) m.pts.push_back(P{grid((double)c.first + o.x, ctx), grid((double)c.second + o.y, ctx)});
                 m.width = el.half_width_and_offset.count ? grid(2 * el.half_width_and_offset[0].x, ctx) : 0;
                 m.scale_width = fp.scale_width;
                 m.end = end_code(el.end_type);
@@ -179,22 +207,26 @@ void add_cell(const Cell& cell, MLib& lib, Ctx& ctx, GridFn grid, bool source) {
             cp.clear();
             continue;
         }
-        static const double ident[6] = {1, 0, 0, 0, 1, 0};
-        if (memcmp(rp.trafo, ident, sizeof ident) != 0 || rp.offset_scale != 1) ctx.problems.push_back("transformed simple robustpath is outside the model");
         for (uint64_t ne = 0; ne < rp.num_elements; ne++) {
             const RobustPathElement& el = rp.elements[ne];
             bool ok = rp.subpath_array.count > 0 && el.width_array.count > 0 && el.width_array[0].type == InterpolationType::Constant;
             for (uint64_t k = 0; k < rp.subpath_array.count && ok; k++)
-                ok = rp.subpath_array[k].type == SubPathType::Segment && el.offset_array[k].type == InterpolationType::Constant && el.offset_array[k].value == 0;
-            if (!ok) { ctx.problems.push_back("simple robustpath with curves/offsets/variable width is outside the model"); continue; }
+                ok = rp.subpath_array[k].type == SubPathType::Segment && el.offset_array[k].type == InterpolationType::Constant && el.offset_array[k].value == el.offset_array[0].value;
+            if (!ok) { ctx.problems.push_back("simple robustpath with curves/varying offsets/variable width is outside the model"); continue; }
+            // spine corners through the path's own 2x3 matrix, then the element's offset (scaled by offset_scale,
+            // whose sign carries reflections) to the left of the transformed direction of travel
+            auto T = [&](Vec2 v) { return LP{(long double)v.x * rp.trafo[0] + (long double)v.y * rp.trafo[1] + rp.trafo[2], (long double)v.x * rp.trafo[3] + (long double)v.y * rp.trafo[4] + rp.trafo[5]}; };
+            std::vector<LP> centre;
+            centre.push_back(T(rp.subpath_array[0].begin));
+            for (uint64_t k = 0; k < rp.subpath_array.count; k++) centre.push_back(T(rp.subpath_array[k].end));
+            centre = offset_polyline(centre, (long double)el.offset_array[0].value * rp.offset_scale);
             for (auto& o : dump::own_offsets(rp.repetition)) {
                 MPath m;
                 m.layer = (int)get_layer(el.tag);
                 m.type = (int)get_type(el.tag);
                 m.props = props_of(rp.properties);
                 m.collinear_ok = true;  // the centre line is a union of straight segments; gdstk samples extra collinear points
-                m.pts.push_back(P{grid(rp.subpath_array[0].begin.x + o.x, ctx), grid(rp.subpath_array[0].begin.y + o.y, ctx)});
-                for (uint64_t k = 0; k < rp.subpath_array.count; k++) m.pts.push_back(P{grid(rp.subpath_array[k].end.x + o.x, ctx), grid(rp.subpath_array[k].end.y + o.y, ctx)});
+                for (auto& c : centre) m.pts.push_back(P{grid((double)c.first + o.x, ctx), grid((double)c.second + o.y, ctx)});
                 m.width = grid(el.width_array[0].value * rp.width_scale, ctx);
                 m.scale_width = rp.scale_width;
                 m.end = end_code(el.end_type);
@@ -402,7 +434,10 @@ inline std::vector<std::string> attrs(const MPath& e, const MPath& g) {
     std::vector<std::string> d;
     if (e.layer != g.layer || e.type != g.type) d.push_back("tag");
     if (e.props != g.props) d.push_back("properties");
-    bool same = e.pts == g.pts || (e.collinear_ok && follows_polyline(e.pts, g.pts));
+    // a repeated vertex does not change the centre line (gdstk drops coincident spine points when it saves)
+    auto dedup = [](const Poly& p) { Poly r; for (auto& v : p) if (r.empty() || r.back() != v) r.push_back(v); return r; };
+    Poly ep = dedup(e.pts), gp = dedup(g.pts);
+    bool same = ep == gp || (e.collinear_ok && follows_polyline(ep, gp));
     if (!same) d.push_back("centre_line");
     if (e.width != g.width) d.push_back("width");
     if (e.scale_width != g.scale_width) d.push_back("scale_width");
